@@ -274,6 +274,40 @@ func preliminaryProcessesChecks(processes []*Process, assumedFreeNames []Name, g
 		}
 	}
 
+	// The processes must not use each other cyclically (prc[a] = ... b ... together with
+	// prc[b] = ... a ...): every name is used once, but such processes wait for each other forever
+	providerOf := make(map[string]int)
+	for i := range processes {
+		for _, provider := range processes[i].Providers {
+			providerOf[provider.Ident] = i
+		}
+	}
+	uses := make([][]int, len(processes))
+	for i := range processes {
+		for _, fn := range NamesInFirstListOnly(processes[i].Body.FreeNames(), processes[i].Providers) {
+			if j, ok := providerOf[fn.Ident]; ok {
+				uses[i] = append(uses[i], j)
+			}
+		}
+	}
+	state := make([]int, len(processes)) // 0 = not visited, 1 = on the current path, 2 = done
+	var onCycle func(i int) bool
+	onCycle = func(i int) bool {
+		state[i] = 1
+		for _, j := range uses[i] {
+			if state[j] == 1 || (state[j] == 0 && onCycle(j)) {
+				return true
+			}
+		}
+		state[i] = 2
+		return false
+	}
+	for i := range processes {
+		if state[i] == 0 && onCycle(i) {
+			return fmt.Errorf("(%s) process %s and the processes it uses depend on each other cyclically", processes[i].Position.String(), processes[i].OutlineString())
+		}
+	}
+
 	return nil
 }
 
